@@ -2,8 +2,10 @@
    Instance P = "not a store reset" of the closure NewCbProofs.v: with no reset option configured, an event that is not a
    cause logs no CbStoreReset -- through every handler, the drain of the kept messages (never a Logon: invariant TS), the
    timers, connect, disconnect and stop, AND through drainMessageIn (section Drain of NewCbProofs.v: the buffered frames are
-   handled first, in the state the session is still in) as long as no buffered frame is a Logon carrying 141=Y, which the
-   scan tracks (`pend`, invariant BP). *)
+   handled first, in the state the session is still in) as long as no buffered frame is a Logon carrying 141=Y that the
+   validator and the application accept, which the scan tracks (`pend`, invariant BP).  A Logon carrying 141=Y that the
+   validator rejects or that FromAdmin refuses is NOT a cause (is_reset_logon requires mi_valid = mi_app = VAccept):
+   handleLogon runs verifyMsgAgainstAppImpl before the reset decision (side condition `accepted` of NewCbProofs.v). *)
 From Coq Require Import String.
 From Coq Require Import ZArith List Bool Lia.
 From QF Require Import Base.Bytes Session.Types Session.Model Session.Spec Session.SpecCause Session.C01Proofs Session.LocalProofs
@@ -27,22 +29,24 @@ Proof. intros H. split; [apply p705_msg|]. right; left. apply type_ok_not_logon;
 Lemma ts_all_ok_705 st : TSst st -> all_ok P705 (stash_of_st st).
 Proof. intros H k x Hx. apply p705_m_ok_typed. exact (H k x Hx). Qed.
 
+(* a message that is not an accepted Logon carrying 141=Y: processing it resets nothing.  A Logon carrying 141=Y that the
+   validator rejects or FromAdmin refuses is in this class: handleLogon decides about the reset after verifyMsgAgainstAppImpl *)
+Lemma not_reset_logon_m_ok m : is_reset_logon m = false -> m_ok P705 m.
+Proof.
+  intros H. split; [apply p705_msg|]. right. unfold is_reset_logon in H. unfold reset_flag, accepted.
+  destruct (beq_bytes (mi_type m) T_LOGON); [right | left; reflexivity].
+  cbn [andb] in H. rewrite <- andb_assoc in H. exact H.
+Qed.
+
 Lemma cause_ev_ok e : reset_cause e = false -> ev_ok P705 e.
 Proof.
   destruct e; cbn [reset_cause ev_ok]; intros H; try exact I; try discriminate H.
-  - split; [apply p705_msg|]. right. unfold reset_flag.
-    destruct (beq_bytes (mi_type m) T_LOGON); [right; exact H | left; reflexivity].
+  - apply not_reset_logon_m_ok. exact H.
   - right. exact H.
 Qed.
 
-(* the buffered frames: none is a Logon carrying 141=Y *)
+(* the buffered frames: none is an accepted Logon carrying 141=Y *)
 Definition buf_clean (l : list (option minput)) : Prop := forall mm, In (Some mm) l -> is_reset_logon mm = false.
-
-Lemma not_reset_logon_m_ok m : is_reset_logon m = false -> m_ok P705 m.
-Proof.
-  intros H. split; [apply p705_msg|]. right. unfold is_reset_logon in H. unfold reset_flag.
-  destruct (beq_bytes (mi_type m) T_LOGON); [right; exact H | left; reflexivity].
-Qed.
 
 Lemma buf_clean_ok l : buf_clean l -> buf_ok P705 l.
 Proof. intros H mm Hm. apply not_reset_logon_m_ok. exact (H mm Hm). Qed.
@@ -151,6 +155,41 @@ Lemma rcx_trace_resets :
   = [(1, 1, false, false); (2, 2, false, false); (2, 3, false, false); (3, 3, false, false); (3, 3, false, false);
      (3, 3, false, false); (3, 1, true, true); (2, 1, true, true); (2, 1, true, true)]
   /\ c07_cause_check (rcx_cfg Acceptor) (rcx_run (rcx_cfg Acceptor) rcx_trace) = [].
+Proof. vm_compute. split; reflexivity. Qed.
+
+(* a reset Logon that is refused is not a cause and resets nothing.  On three connections: FromAdmin answers RejectLogon to a
+   directly processed Logon carrying 141=Y; the validator rejects one that is delivered from the buffer; FromAdmin refuses
+   one that handleDisconnectState finds in the buffer.  reset_cause / arrives_reset are false throughout (`pend` stays
+   false: every event is judged), and the store is never reset *)
+Definition rcx_refused (n : Z) (app valid : verdict) : minput :=
+  {| mi_type := T_LOGON; mi_begin := B "FIX.4.2"; mi_sender := Some (B "T"); mi_target := Some (B "S");
+     mi_seq := FVal n; mi_possdup := FAbsent; mi_stime := FVal 0; mi_otime := FAbsent; mi_gapfill := FAbsent;
+     mi_newseq := FAbsent; mi_beginseq := FAbsent; mi_endseq := FAbsent; mi_reset := FVal true; mi_hbint := FVal 30;
+     mi_testreq := None; mi_applver := None; mi_route := []; mi_body := []; mi_app := app; mi_valid := valid;
+     mi_refuse := [] |}.
+Definition rcx_refused_trace : list event :=
+  [EConnect; EIncoming (rcx_msg T_LOGON 1 FAbsent); EIncoming (rcx_msg T_HEARTBEAT 2 FAbsent); EInClosed;
+   EConnect; EArrive (rcx_refused 3 VAccept (VReject 5 (Some 141) false)); EDeliver;
+   EConnect; EArrive (rcx_refused 3 VRejectLogon VAccept); EInClosed].
+Lemma rcx_refused_trace_keeps :
+  map (fun o => (ob_inbuf (snd o), has_reset (ob_cbs (snd o)), reset_cause (fst o), arrives_reset (fst o)))
+      (rcx_run (rcx_cfg Acceptor) rcx_refused_trace)
+  = [(0, false, false, false); (0, false, false, false); (0, false, false, false); (0, false, false, false);
+     (0, false, false, false); (1, false, false, false); (0, false, false, false); (0, false, false, false);
+     (1, false, false, false); (0, false, false, false)]
+  /\ c07_cause_check (rcx_cfg Acceptor) (rcx_run (rcx_cfg Acceptor) rcx_refused_trace) = [].
+Proof. vm_compute. split; reflexivity. Qed.
+(* ... directly processed in the logon state as well: RejectLogon from FromAdmin, the store keeps its counters (3 / 3 before,
+   the refused Logon consumes number 3) *)
+Definition rcx_refused_direct_trace : list event :=
+  [EConnect; EIncoming (rcx_msg T_LOGON 1 FAbsent); EIncoming (rcx_msg T_HEARTBEAT 2 FAbsent); ETimeout NeedHeartbeat; EInClosed;
+   EConnect; EIncoming (rcx_refused 3 VRejectLogon VAccept)].
+Lemma rcx_refused_direct_trace_keeps :
+  map (fun o => (ob_snd (snd o), ob_tgt (snd o), has_reset (ob_cbs (snd o)), reset_cause (fst o)))
+      (rcx_run (rcx_cfg Acceptor) rcx_refused_direct_trace)
+  = [(1, 1, false, false); (2, 2, false, false); (2, 3, false, false); (3, 3, false, false); (3, 3, false, false);
+     (3, 3, false, false); (4, 4, false, false)]
+  /\ c07_cause_check (rcx_cfg Acceptor) (rcx_run (rcx_cfg Acceptor) rcx_refused_direct_trace) = [].
 Proof. vm_compute. split; reflexivity. Qed.
 
 (* buffered frames are covered: two Heartbeats are buffered; one is delivered (EDeliver), the other is handled by
